@@ -319,8 +319,8 @@ func (p *Prog) enumerateLoopPaths(cl *copyLoop, kind string) (int, []string) {
 	}
 	type st struct {
 		w, d, it, cnt int
-		member       int // 0 unknown, +1 true edge, -1 false edge
-		trail        []string
+		member        int // 0 unknown, +1 true edge, -1 false edge
+		trail         []string
 	}
 	var walk func(b *ssa.BasicBlock, s st, onPath map[*ssa.BasicBlock]bool)
 	walk = func(b *ssa.BasicBlock, s st, onPath map[*ssa.BasicBlock]bool) {
